@@ -585,7 +585,11 @@ func ruleTableInsert(p *Prog, r *Out) {
 				})
 			}
 		}
-		r.check(uncond, "insert takes a slot", p.pos(as.Pos()), "openStreams++ follows the insert unconditionally",
+		key := "insert takes a slot"
+		if !uncond {
+			key += " (counted only under `" + cond + "`)"
+		}
+		r.check(uncond, key, p.pos(as.Pos()), "openStreams++ follows the insert unconditionally",
 			fmt.Sprintf("the stream table insert `%s` is followed by a slot increment only under `%s`: a PRIORITY or WINDOW_UPDATE frame on a fresh stream id allocates a Stream and a RequestCtx that are not counted against MaxConcurrentStreams and stay for the life of the connection (and the id can later be dispatched uncounted)", p.text(as), cond))
 		return true
 	})
@@ -750,7 +754,7 @@ func ruleGoAwayBookkeeping(p *Prog, r *Out) {
 			vs = append(vs, fmt.Sprintf("%s x%d", k, n))
 		}
 		sortStrings(vs)
-		r.bad("last-stream-id origin", p.pos(setArg.Pos()), fmt.Sprintf("the GOAWAY last-stream-id is `%s`, a parameter whose call-site values are {%s}; none derives from serverConn.lastID, the highest stream id accepted, so GOAWAY(last=0) is sent after streams were dispatched and a client may replay requests the server already processed (RFC 7540 s6.8)", p.text(setArg), strings.Join(vs, ", ")))
+		r.bad("last-stream-id origin {"+strings.Join(vs, "; ")+"}", p.pos(setArg.Pos()), fmt.Sprintf("the GOAWAY last-stream-id is `%s`, a parameter whose call-site values are {%s}; none derives from serverConn.lastID, the highest stream id accepted, so GOAWAY(last=0) is sent after streams were dispatched and a client may replay requests the server already processed (RFC 7540 s6.8)", p.text(setArg), strings.Join(vs, ", ")))
 	} else {
 		r.ok("last-stream-id origin", p.pos(setArg.Pos()), "derives from serverConn.lastID")
 	}
